@@ -101,6 +101,17 @@ fn classify(a: &Node, b: &Node) -> String {
     "reparse_mismatch".into()
 }
 
+/// `==` on `Workbook`, with the bit-exact snapshot (values, views, styles) standing in when the
+/// workbook holds a NaN (f64 `==` is not reflexive there)
+fn wb_equal(a: &Model, b2: &Model) -> (bool, bool) {
+    if a.workbook == b2.workbook { return (true, false); }
+    #[allow(clippy::eq_op)]
+    let reflexive = a.workbook == a.workbook;
+    if reflexive { return (false, false); }
+    let full = SnapOpts { values: true, views: true, styles: true };
+    (snapshot(a, &full) == snapshot(b2, &full), true)
+}
+
 fn has_volatile(m: &Model) -> bool {
     m.workbook.worksheets.iter().any(|ws| ws.shared_formulas.iter().any(|f| { let u = f.to_uppercase(); VOLATILE.iter().any(|v| u.contains(&format!("{v}("))) }))
 }
@@ -120,7 +131,9 @@ impl Run {
             Err(_) => { self.or.fail("load_panics", replay.clone(), "from_bytes(to_bytes) panics".into()); return false; }
         };
         // (1) the codec law: the decoded workbook is the encoded one
-        if m2.workbook != um.get_model().workbook {
+        let (eq, nan) = wb_equal(um.get_model(), &m2);
+        if nan { *self.dist.entry("workbook_holds_nan".to_string()).or_insert(0) += 1; }
+        if !eq {
             self.or.fail("codec_workbook_differs", replay.clone(), "decode(encode(workbook)) != workbook".into());
             return false;
         }
@@ -149,7 +162,9 @@ impl Run {
                 self.or.checked += 1;
                 match m1.parsed_formulas.get(si).and_then(|v| v.get(fi)) {
                     Some((before, _)) => {
-                        if before != after {
+                        // ParseErrorKind carries a message and a position: compared modulo that payload
+                        let same = before == after || (!has_long_number(before) && dump_s(before, &self.fns) == dump_s(after, &self.fns));
+                        if !same {
                             self.tree_diffs += 1;
                             let c = classify(before, after);
                             if !classes.contains(&c) {
@@ -191,7 +206,7 @@ impl Run {
             Ok(m3) => {
                 let same_trees = m3.parsed_formulas.len() == m2.parsed_formulas.len()
                     && m3.parsed_formulas.iter().zip(m2.parsed_formulas.iter()).all(|(a, b2)| a.len() == b2.len() && a.iter().zip(b2.iter()).all(|(x, y)| x.0 == y.0));
-                if m3.workbook != m2.workbook || !same_trees {
+                if !wb_equal(&m2, &m3).0 || !same_trees {
                     self.or.fail("second_load_differs", replay.clone(), "load(save(load(save m))) differs from load(save m)".into());
                     ok = false;
                 }
